@@ -48,9 +48,25 @@ func c02Gen(t *rapid.T) vPipeCase {
 	if len(c.Restored) > 0 && rapid.Bool().Draw(t, "purefresh") {
 		nops = 0
 	}
+	// One channel may run edge-multi (its triggers are not judged here): it refuses record lengths that leave fewer
+	// post-trigger samples than its monotonicity count, and a refused request must not change any other channel either.
+	guard := -1
+	guardMono := 0
+	if c.Nchan >= 2 && len(c.Restored) == 0 && nsamp-npre >= 4 && rapid.IntRange(0, 2).Draw(t, "guard") == 0 {
+		guard = c.Nchan - 1
+		guardMono = rapid.IntRange(4, nsamp-npre).Draw(t, "guardmono")
+	}
+	if guard >= 0 {
+		c.Hist = append(c.Hist, vHistOp{At: 0, Kind: "trigger", Chans: []int{guard}, Trig: vTrigCfg{EMT: true, EMTMode: 2, EMTLevel: 100, EMTNMono: guardMono, EMTNoZero: true}})
+	}
 	at := 0
 	for i := 0; i < nops && len(c.Blocks) > 1; i++ {
 		at = rapid.IntRange(at, len(c.Blocks)-1).Draw(t, "at")
+		if guard >= 0 && rapid.IntRange(0, 1).Draw(t, "refused") == 0 {
+			np := rapid.IntRange(3, 5).Draw(t, "badnpre")
+			c.Hist = append(c.Hist, vHistOp{At: at, Kind: "trylengths", Npre: np, Nsamp: np + rapid.IntRange(1, guardMono-1).Draw(t, "badpost")})
+			continue
+		}
 		switch rapid.IntRange(0, 2).Draw(t, "histkind") {
 		case 0:
 			chans := all
@@ -62,6 +78,9 @@ func c02Gen(t *rapid.T) vPipeCase {
 			c.Hist = append(c.Hist, vHistOp{At: at, Kind: "lengths", Npre: npre, Nsamp: nsamp})
 		default:
 			np, ns := vGenLengths(t)
+			if guard >= 0 && ns-np < guardMono {
+				ns = np + guardMono // lengths the edge-multi channel accepts
+			}
 			c.Hist = append(c.Hist, vHistOp{At: at, Kind: "lengths", Npre: np, Nsamp: ns})
 			npre, nsamp = np, ns
 		}
@@ -78,13 +97,19 @@ func c02Run(c vPipeCase) (v vVerdict) {
 	if !c.valid() {
 		return v
 	}
+	emtChan := map[int]bool{} // channels that ever ran edge-multi: present, but their triggers are C08's business (not judged here at all)
 	for _, h := range c.Hist {
-		if h.Kind != "trigger" && h.Kind != "lengths" {
+		if h.Kind != "trigger" && h.Kind != "lengths" && h.Kind != "trylengths" {
 			return v
 		}
 		if h.Kind == "trigger" && h.Trig.EMT {
-			return v
+			for _, ch := range h.Chans {
+				emtChan[ch] = true
+			}
 		}
+	}
+	if len(emtChan) == c.Nchan {
+		return v
 	}
 	tr, fail := vRunPipe(&c, func(tr *vTrace, k int, recs []*DataRecord) *vVerdict {
 		// each record must be a primary of its channel (no group triggers here) and a valid excerpt
@@ -109,6 +134,9 @@ func c02Run(c vPipeCase) (v vVerdict) {
 	nearBoundary := false
 	classes := map[string]bool{}
 	for ch := 0; ch < c.Nchan; ch++ {
+		if emtChan[ch] {
+			continue
+		}
 		// sign-corrected stream
 		x := make([]int, len(tr.Truth[ch]))
 		for i, r := range tr.Truth[ch] {
@@ -264,6 +292,9 @@ func c02Run(c vPipeCase) (v vVerdict) {
 		}
 	}
 	v.NonTrivial = nearBoundary
+	if tr.Refused > 0 {
+		classes["refused-length-change"] = true
+	}
 	for k := range classes {
 		v.Classes = append(v.Classes, k)
 	}
